@@ -641,7 +641,10 @@ def spec_call(eng, st, e, old):
             if old is None:
                 raise Unsupported('old() where no entry state exists')
             tmp = State()
-            tmp.env = dict(old.env)
+            # parameters (and everything else bound at entry) take their entry values; names that did not exist at entry
+            # (event arguments, locals, quantifier variables) keep their current meaning
+            tmp.env = dict(st.env)
+            tmp.env.update(old.env)
             tmp.env.update(eng.qenv)        # variables bound by enclosing quantifiers stay visible inside old(...)
             # loop ghosts and `result` are not part of the entry state
             tmp.heap = old.heap
@@ -1022,8 +1025,20 @@ BUILTINS = {
 
 
 # ================================================================================================ methods
+class EmptyDisplay:
+    """`[]` / `{}` used as a default argument: typed by the value it stands in for."""
+
+    def __init__(self, kind):
+        self.kind = kind
+
+
+def _is_empty_display(a):
+    return (isinstance(a, ast.List) and not a.elts) or (isinstance(a, ast.Dict) and not a.keys)
+
+
 def method_call(eng, st, node, base, name, spec=False, old=None):
-    args = [eng.ev(a, st, spec, old) for a in node.args]
+    args = [EmptyDisplay('list' if isinstance(a, ast.List) else 'dict') if (name == 'get' and _is_empty_display(a))
+            else eng.ev(a, st, spec, old) for a in node.args]
     kwargs = {k.arg: eng.ev(k.value, st, spec, old) for k in node.keywords}
     # ---- graphs
     if isinstance(base, NodesOf) and name == '__call__':
@@ -1112,6 +1127,13 @@ def method_call(eng, st, node, base, name, spec=False, old=None):
 
 
 def _get_default(has, val, default):
+    if isinstance(default, EmptyDisplay):
+        if isinstance(val.ty, TList):
+            default = ops.list_literal(val.ty, [])
+        elif isinstance(val.ty, TDict):
+            default = ops.dict_empty(val.ty)
+        else:
+            raise Unsupported('empty display as default for %s' % val.ty)
     default = lift(default)
     if default.ty is TNone:
         ot = TOpt(val.ty)
@@ -1135,8 +1157,9 @@ def _attr_get(eng, st, base, args, node):
     else:
         suffix, ty = H.NODE_SCHEMAS[base.schema][name]
         has, val = base.attrs.get(suffix, (FALSE, fresh(ty)))
-    default = lift(default)
-    if default.ty is TStr and val.ty is TBool:
+    if not isinstance(default, EmptyDisplay):
+        default = lift(default)
+    if isinstance(default, Val) and default.ty is TStr and val.ty is TBool:
         # truthiness-only use: .get('aromatic', 'False') — a non-empty str default is truthy
         return Val(TBool, z3.If(has, val.t, ops.truthy(default)))
     return _get_default(has, val, default)
